@@ -29,6 +29,10 @@ CHECKS["C20"] = dict(level="fault_enumeration", design="3/C20",
    technique="exhaustive single/suffix fault injection at every allocation request (link-time interposition) validated by TLC against the AllocFault.tla monitor; TLC model check of the allocation-protocol design",
    text="For each of 18 API calls (Argon2i/id raw, string, verify with right and wrong password, needs_rehash; scrypt raw, string, verify, low-level; sodium_malloc, sodium_allocarray) and each build variant that changes the allocator branch (mmap, posix_memalign, malloc+63), the call's n allocation requests are counted and the call is re-run in a forked child with request i failing and with every request from i on failing, for every i; the recorded events (requests, releases, return value, whether the right hash/string/match/pointer was produced, crash) are validated by TLC against the monitor: no double or foreign free, and if any request failed then error return, nothing produced, nothing leaked. TLC also explores every failure subset of the design model of the protocols. Enumeration is complete for the listed calls and parameter sets (exhaustive: true); it is not a statement about other parameter sets.",
    note="Trusted: the linker interposition sees every request the library makes (libc-internal requests would not be seen; none exist on these paths); fork/wait as crash observation. mprotect/mlock failures are not injected.")
+CHECKS["C18"] = dict(level="model_checking", design="3/C18",
+   technique="TLC exhaustive model checking of the rejection sampler (RandomSource.tla, 6-bit words) + trace validation (TLC, real 32-bit arithmetic) of recorded sampler / generator executions under a scripted random source",
+   text="TLC explores every bound 0..63 and every sequence of up to two draws of the sampler state machine at word size 6 and checks range, first-accepted-draw, no-draw-for-n<2 and exact uniformity of the accepted set (the invariant that separates the right threshold from r <= min or a wrong modulus). The same state machine, instantiated with exact 32-bit arithmetic on BigNat, validates traces of the real randombytes_uniform under a scripted source (public API, uniform = NULL): structured bounds (0,1,2,2^k+-1,2^31+-1,2^32-1,random) x draws placed at the threshold -1/0/+1, including how many draws were consumed. Every generating API (45: all keygens, key pairs, scalar/point generators, secretstream header, sealed box, password-hash strings) is run under three scripts, twice with the same bytes and once with perturbed bytes, and TLC checks request sizes, secret = served bytes (scalars: the rejection loop on L computed in the spec), salt encoded in the hash string, reproducibility and sensitivity; the deterministic generator is compared with the ChaCha20-IETF keystream under 'LibsodiumDRG' computed by TLC at ~60 lengths up to 1100 bytes for two seeds.",
+   note="Trusted: TLC; the scripted source sees every request because it is the installed implementation. Public keys/points as functions of the served bytes are checked under C05-C07, not here.")
 NOT_YET = {}
 def main():
     props = [json.loads(l) for l in open(os.path.join(HERE, "properties.jsonl"))]
